@@ -74,6 +74,14 @@ def c05(tier, seed):
     # H7 "a counted object is dropped when the limit cancels the request": concrete two-hop store, limit 1, canonical
     # schedule of the engine; the native replay is a stress run (40 documents, limit 5) that fails on a short answer
     jobs.append(J(CMDS, "VerifK05TwoHop", unwind=64, timeout_ms=60000, max=1))
+    # K05p: the set workers of the streaming pipeline (`and` / `but not` operator nodes): the real
+    # (*Intersection).Execute / (*Difference).Execute, wired as pipeline.Build wires them, on arbitrary operand
+    # contents (every (operand, object) pair decided by the solver): output = exactly the set operation, no duplicates
+    WORKER = "internal/listobjects/pipeline/internal/worker"
+    for p in ([dict(kind="inter", ops=2, vals=3), dict(kind="inter", ops=3, vals=3, split=1), dict(kind="diff", vals=4, split=1),
+               dict(kind="inter", ops=2, vals=4, chunk=1, procs=2)]
+              + ([] if q else [dict(kind="inter", ops=3, vals=4, split=1, procs=2), dict(kind="diff", vals=4, chunk=1, procs=2)])):
+        jobs.append(J(WORKER, "VerifK05pSetWorkers", unwind=32, timeout_ms=60000, max_paths=8000, **p))
     if not q:
         for j in jobs:
             j["job_timeout_s"] = 3000
@@ -84,7 +92,7 @@ SPEC = {
     "C05": {
         "jobs": c05,
         "no_witness": ["VerifK05TwoHop"],  # natively a stress run (40 documents, many repetitions), not a replay of the model
-        "level_text": "bounded symbolic execution of the real classic ListObjects engine (NewListObjectsQuery with its feature-flag client, Execute with request validation, evaluate: request storage wrapper, ReverseExpandQuery in both variants - reverse_expand.go and, under the optimisation flag, reverse_expand_weighted.go -, consumer loop, bounded pool, the real CheckCommand + graph.LocalChecker for candidates that need further evaluation, trySendObject) over a symbolic store: every candidate tuple's presence is a solver variable, every (type, relation, subject) over the universe is requested, the planner of the embedded Check picks an arbitrary strategy per plan key, and on every path the solver shows: every returned object is an object of the requested type that the three-valued least-fixpoint reference semantics of Check permits, no object is returned twice, with max results 0 every permitted object is returned, with a result limit never more than the limit and - limit 2 on two objects per type, limit 3 on three - exactly min(limit, number of permitted objects) objects are returned, and an error occurs only if the store or the contextual tuples hold a tuple whose condition cannot be evaluated.",
+        "level_text": "bounded symbolic execution of the real classic ListObjects engine (NewListObjectsQuery with its feature-flag client, Execute with request validation, evaluate: request storage wrapper, ReverseExpandQuery in both variants - reverse_expand.go and, under the optimisation flag, reverse_expand_weighted.go -, consumer loop, bounded pool, the real CheckCommand + graph.LocalChecker for candidates that need further evaluation, trySendObject) over a symbolic store: every candidate tuple's presence is a solver variable, every (type, relation, subject) over the universe is requested, the planner of the embedded Check picks an arbitrary strategy per plan key, and on every path the solver shows: every returned object is an object of the requested type that the three-valued least-fixpoint reference semantics of Check permits, no object is returned twice, with max results 0 every permitted object is returned, with a result limit never more than the limit and - limit 2 on two objects per type, limit 3 on three - exactly min(limit, number of permitted objects) objects are returned, and an error occurs only if the store or the contextual tuples hold a tuple whose condition cannot be evaluated. (K05p) the set-operator workers of the streaming pipeline - the real (*Intersection).Execute and (*Difference).Execute wired as pipeline.Build wires an operator node - on arbitrary operand contents (2-3 operands over 3-4 object ids, every membership a solver decision, one or two messages per operand, chunk size 1-2, 1-2 processing goroutines): the output is exactly the intersection / difference of the operand sets, without duplicates, and no error is reported.",
         "level_note": "bounds: 8 (quick) / 17 models, 2 objects per type (3 in the schedule jobs), all valid candidates (<= 12/14) with one subject per type or <= 10/12 candidates with invalid leftovers and all subjects (objects, usersets, typed wildcards); up to 3 candidates as contextual tuples; breadth limit 1 (thorough). The streaming pipeline engine is OUTSIDE (switched off: WithListObjectsPipelineEnabled(false), pipeline feature flag absent). Deadline switched off (a deadline truncates the answer by design; the abstract clock may jump past any deadline). Schedules: one canonical fair interleaving per path (cooperative: a goroutine runs until it blocks or reaches a select); the jobs with `sched` additionally fork the first 6/10 selects that have several ready cases. Findings H7 (a counted object dropped when the limit cancels the request), H24 (max results 0 swallowed condition errors) and H25 (empty user filter matched every contextual tuple) were found by these jobs and are repaired in /repo; the jobs that demonstrated them stay in the list and every job now carries the full obligations (exact count also with limit 1, errors reported with max results 0, typed-wildcard subjects with contextual tuples). Model h6 (thorough) surfaces H6 of the embedded Check engine (default strategy), recorded as known finding H6b. Trusted: engine semantics and library models listed in evidence, the reference semantics (harness/internal/vtsem), z3.",
         "assumptions": [
             "store content = arbitrary subset of the candidate universe (2-3 objects per type, every tuple the model's type restrictions allow plus invalid leftovers), restricted to `maxcands` candidates chosen by seed; (object, relation, user) is a key",
@@ -94,6 +102,6 @@ SPEC = {
             "ListObjects deadline = 0 (disabled); dispatch and datastore throttling disabled (defaults); iterator and check caches off (defaults)",
             "tracing/metrics/logging are no-ops; timers never fire",
         ],
-        "outside": ["the streaming pipeline engine (internal/listobjects/pipeline) end to end", "StreamedListObjects (same evaluate, unbounded limit, gRPC stream)", "deadline-truncated answers", "schedules with preemption at arbitrary instructions or true parallelism (beyond the cooperative interleaving and the forked select choices)", "universes beyond the bounds", "real CEL outcomes"],
+        "outside": ["the streaming pipeline engine (internal/listobjects/pipeline) end to end (only its `and` / `but not` operator workers are covered in isolation, K05p; the cycle workers under C21)", "StreamedListObjects (same evaluate, unbounded limit, gRPC stream)", "deadline-truncated answers", "schedules with preemption at arbitrary instructions or true parallelism (beyond the cooperative interleaving and the forked select choices)", "universes beyond the bounds", "real CEL outcomes"],
     },
 }
